@@ -119,6 +119,12 @@ func main() {
 	}
 
 	cfg := nsq.NewConfig()
+	// nsq_to_file never fails a message: the router only FINishes what it has synced and
+	// never REQueues. A delivery count above max_attempts therefore only means that earlier
+	// runs died (kill, os.Exit(1) on an I/O error) before the message was written; with
+	// go-nsq's default max_attempts=5 the library would FIN such a message without ever
+	// handing it to the router. Do not give up unless --consumer-opt max_attempts,N asks for it.
+	cfg.MaxAttempts = 0
 	cfgFlag := nsq.ConfigFlag{cfg}
 	for _, opt := range opts.ConsumerOpts {
 		cfgFlag.Set(opt)
